@@ -264,11 +264,15 @@ def manifest():
         'setup_cmd': 'true',
         'hooks': {
             'guard': 'PYXTUML_VERIF',
-            'enable': 'no source hooks: pyxtuml is a sequential library, every action is observed at the return '
-                      'of a public call; checks copy /repo/xtuml and /repo/bridgepoint (working tree) to a scratch '
-                      'directory, regenerate the ply tables there and put it first on PYTHONPATH',
+            'enable': 'PYXTUML_VERIF=1 PYXTUML_VERIF_TRACE=<file> with /verif/vt/hooks on PYTHONPATH: xtuml.meta.relate / unrelate / '
+                      'delete / MetaClass.new are wrapped by the tracer /verif/vt/hooks/xtuml_verif_hook.py, which records every '
+                      'top-level call with the projected state before and after it (only ./check C02 turns them on, to validate '
+                      'the repository tests; with the variable unset the decorator returns the functions unchanged). All other '
+                      'observations need no hook: pyxtuml is a sequential library and every action is observed at the return of '
+                      'a public call; checks copy /repo/xtuml and /repo/bridgepoint (working tree) to a scratch directory, '
+                      'regenerate the ply tables there and put it first on PYTHONPATH',
             'baseline_off_cmd': 'cd /repo && /venv/bin/python -m pytest -q -p no:cacheprovider --timeout=900',
-            'source_commits': [],
+            'source_commits': ['b50de69'],
             'add_only': True,
         },
         'engines': [{
